@@ -755,6 +755,16 @@ fn own_props(tier: &str, seed: u64, threads: usize, out: &str) {
     });
     let mut extra = BTreeMap::new();
     extra.insert("random.histories".into(), format!("{nh} x ~{nc} calls"));
+    // traversals whose closure drops the last owner of a node that the traversal has discovered or is about to
+    exec::new_section();
+    let nwalk = if quick { 1600 } else { 20000 };
+    spread_with(&mut ctxs, nwalk, |i, ctx| {
+        let mut rng = Rng::new(seed.wrapping_mul(109).wrapping_add(i as u64));
+        let lines = exec_own::gen_walk_case(&mut rng, ["di", "sdi", "un", "sun"][i % 4], &format!("walk{i}"));
+        exec_own::run_program(&lines, ctx);
+        ctx.count("cases");
+    });
+    extra.insert("closure_drops_owner".into(), format!("{nwalk} histories: a container is the only owner of connected members; a traversal's closure takes one out, isolates and drops it"));
     write_outputs(out, &ctxs, extra);
 }
 
@@ -1040,6 +1050,16 @@ fn live_props(tier: &str, seed: u64, threads: usize, out: &str) {
         });
     }
     extra.insert("rewire".into(), format!("{} (graph, kind, root, step, added edge, removed edge) combinations per flavour on 3 nodes", jobs.len()));
+    // traversals whose closure drops the last owner of a node that the traversal has discovered or is about to
+    exec::new_section();
+    let nwalk = if quick { 1600 } else { 20000 };
+    spread_with(&mut ctxs, nwalk, |i, ctx| {
+        let mut rng = Rng::new(seed.wrapping_mul(109).wrapping_add(i as u64));
+        let lines = exec_own::gen_walk_case(&mut rng, ["di", "sdi", "un", "sun"][i % 4], &format!("walk{i}"));
+        exec_own::run_program(&lines, ctx);
+        ctx.count("cases");
+    });
+    extra.insert("closure_drops_owner".into(), format!("{nwalk} histories: a container is the only owner of connected members; a traversal's closure takes one out, isolates and drops it"));
     write_outputs(out, &ctxs, extra);
 }
 
@@ -1056,8 +1076,9 @@ fn conc_props(tier: &str, seed: u64, out: &str) {
         ("u<->v", vec!["connect 0 1 7".into(), "connect 1 0 8".into()]),
         ("loop+par", vec!["connect 0 0 5".into(), "connect 0 1 7".into(), "connect 0 1 9".into()]),
     ];
-    // mutators on the pair (0, 1) in both directions, and on node 0 alone (self-loops)
-    let muts = ["c.0.1.1", "c.1.0.2", "t.0.1.3", "t.1.0.4", "d.0.1", "d.1.0", "x.0", "x.1", "c.0.0.6", "t.0.0.7", "d.0.0"];
+    // mutators on the pair (0, 1) in both directions (two connects of the same ordered pair carry different values),
+    // and on node 0 alone (self-loops)
+    let muts = ["c.0.1.1", "c.0.1.5", "c.1.0.2", "t.0.1.3", "t.1.0.4", "d.0.1", "d.1.0", "x.0", "x.1", "c.0.0.6", "t.0.0.7", "d.0.0"];
     // readers: queries, whole iterations, and traversals (B/D = bfs/dfs search, T = transposed bfs, P = preorder)
     let reads_di = ["q.0.1", "g.0", "o.1", "i.0", "i.1", "n.1", "r.1", "l.0", "f.1.0", "F.0.1", "B.0.1", "D.1.0", "T.1.0", "P.0"];
     let reads_un = ["q.0.1", "g.0", "o.1", "i.0", "i.1", "F.1.0", "B.0.1", "D.1.0", "P.1"];
